@@ -176,6 +176,9 @@ mod util;
 pub mod operator;
 pub mod prelude;
 
+#[cfg(feature = "verif_hooks")]
+pub mod verif_hooks;
+
 /// `Graph<N, E, Ty, Ix>` is a graph datastructure using an adjacency list representation.
 pub mod graph {
     pub use crate::graph_impl::{
